@@ -106,7 +106,7 @@ def run(ctx):
         if not ctx.next_case():
             continue
         ctx.count("cases")
-        kind = rng.choice(["ff", "ff", "ff", "enhsp", "noplan"])
+        kind = rng.choice(["ff", "ff", "ff", "enhsp", "noplan", "ff-empty-plan"] if i % 9 == 0 else ["ff", "ff", "ff", "enhsp", "noplan"])
         nsteps = rng.choice([0, 1, 2, 9, 10, 11, 12, 37, 99, 100, 101, 150]) if rng.random() < 0.6 else rng.randint(0, 150)
         steps = gen_plan(rng, nsteps)
         want = [[t.lower() for t in s] for s in steps]
@@ -160,6 +160,20 @@ def run(ctx):
                 ctx.violation("ff:written-plan-file-differs", dict(wit, observed=str(got2)[:500]))
             if i < 2:
                 ctx.sample({"layout": "metric-ff", "log": log[:1200], "steps": nsteps})
+        elif kind == "ff-empty-plan":
+            # Metric-FF's own rendering of the plan with no steps (the goal already holds in the initial state)
+            hdr = [b for b in HEADER_BLOCKS if rng.random() < 0.7]
+            log = "".join(hdr) + "\nff: goal can be simplified to TRUE. The empty plan solves it\n\n"
+            p = Path(env.write_tmp(log, suffix=".out", name="planner-output.out" if reuse else None))
+            try:
+                status, acts = MetricFFParser().get_solving_status(p)
+            except BaseException as e:
+                status, acts = lib.exc_name(e), None
+            ctx.count("compared:status")
+            ctx.count("compared:steps")
+            ctx.feat({"ff:empty-plan-as-metric-ff-prints-it"})
+            if status != "ok" or acts:
+                ctx.violation("ff:log-with-the-empty-plan-not-classified-ok", {"log": log[:3000], "expected": ["ok", []], "observed": [status, acts]})
         elif kind == "noplan":
             hdr = [b for b in HEADER_BLOCKS if rng.random() < 0.7]
             marker = rng.choice(NO_SOLUTION + [None, None])
